@@ -90,6 +90,9 @@ func Register(d *Def) {
 	registry[d.Prop] = d
 }
 
+// Replace overwrites a property definition.
+func Replace(d *Def) { registry[d.Prop] = d }
+
 // Lookup finds a property definition.
 func Lookup(prop string) *Def { return registry[prop] }
 
